@@ -28,7 +28,7 @@ META = {
     "level_note": "Not decided: 'forward then backward returns to the start within integration tolerance' for RK schemes "
                   "(accuracy statement; exact for the symplectic sub-maps: C16). The dense-output phase of the adaptive "
                   "drivers (searchsorted + interpolation at exactly t_eval[idx]) is covered by a BOUNDED instance run "
-                  "(float execution of the real driver with recorded evaluator calls), labelled bounded.",
+                  "(float execution of the real driver with recorded evaluator calls), labelled bounded. Call chain: System.propagate's service is checked over all request histories of length 3 (direction, span, grid, extras of THIS request reach _propagate_dynsys); time stamps are also checked for spans that do not start at zero.",
     "technique": "symbolic execution of real code + loop invariants (z3) + recorded-callee wiring contracts; bounded instance for the dense-output phase",
 }
 
